@@ -1315,9 +1315,9 @@ def suite_keys(ctx: Ctx, real: Real, drv):
         + [g[0] for g in universe().generics.values()] + [None, Any, Union, Literal, Annotated, tuple, type]
     ids = [id(o) for o in objs]
     n += 1
-    if 0 in ids or len({id(o) for o in objs}) != len({(id(o)) for o in {id(x): x for x in objs}.values()}):
+    if 0 in ids:
         d_ += 1
-        ctx.disagree("ident-keys", {"suite": "ident-keys", "objects": True}, "ids distinct and non-zero", "violated")
+        ctx.disagree("ident-keys", {"suite": "ident-keys", "objects": True}, "ids are non-zero", "an object has id 0")
     ctx.suite("ident-keys", n, d_)
     # TypeVar limits
     u = universe()
